@@ -85,14 +85,19 @@ bool SameUndo(const CBlockUndo& a, const CBlockUndo& b)
 
 } // namespace
 
-VERIF_TARGET(c17_blockstore, nullptr, 24, 200,
-             "history of 2-12 blocks (250 B..70 KiB via coinbase padding, 0-3 generated spends, on the tip or on a fork 1-2 back => undo written out of order "
+VERIF_TARGET(c17_blockstore, nullptr, 48, 360,
+             "history of 2-10 blocks (250 B..70 KiB via coinbase padding, 0-3 generated spends, on the tip or on a fork 1-2 back => undo written out of order "
              "after reorgs) on a node with 64 KiB block files; all block and undo records are read back after every step against own serialization, raw "
              "de-obfuscated file bytes and the model's spent coins; then 0-6 raw-file faults (flip in magic / length / header / tx bytes / undo body / "
              "undo checksum, truncate, zero tail) each followed by a full read-back with the admissible outcomes derived from a byte diff; finally a "
              "corrupted never-connected fork block is given the most work and must stay out of the active chain. non-trivial = records in >=2 block "
              "files, an undo written after a reorg, and >=2 different fault regions hit (or the connect clause exercised); distinct = sizes/fork shape + fault (region, outcome) sequence")
 {
+    // counts first (an exhausted buffer yields zeros: no faults, no connect test, shortest history)
+    // the connect clause is tested on otherwise pristine files (a fault elsewhere could make the reorg fail for unrelated reasons)
+    const bool connect_test = s.chance(80);
+    const unsigned nfaults = connect_test ? 0 : s.range<unsigned>(0, 6);
+    const unsigned nblk = s.range<unsigned>(2, 10);
     ChainSimOpts o;
     o.fast_prune = true;
     ChainSim sim(o);
@@ -239,11 +244,10 @@ VERIF_TARGET(c17_blockstore, nullptr, 24, 200,
     };
 
     // ---- history
-    unsigned nblk = s.range<unsigned>(2, 12);
     for (unsigned bi = 0; bi < nblk; ++bi) {
         uint256 tip = sim.TipHash();
         uint256 parent = tip;
-        unsigned psel = s.range<unsigned>(0, 5);
+        unsigned psel = s.pick<unsigned>({0, 0, 4, 3, 0, 5, 3, 4});
         if (psel == 3) { // extend the newest block that never got connected: its branch overtakes the tip => reorg, undo written out of height order
             for (size_t i = recs.size(); i-- > 0;) if (!recs[i].connected) { parent = recs[i].hash; break; }
         }
@@ -301,9 +305,6 @@ VERIF_TARGET(c17_blockstore, nullptr, 24, 200,
         return ok;
     };
     std::set<size_t> tx_corrupted; // records whose tx bytes were hit on purpose
-    // the connect clause is tested on otherwise pristine files (a fault elsewhere could make the reorg fail for unrelated reasons)
-    const bool connect_test = s.chance(80);
-    unsigned nfaults = connect_test ? 0 : s.range<unsigned>(0, 6);
     for (unsigned fi = 0; fi < nfaults; ++fi) {
         size_t ri = s.index(recs.size());
         Rec& r = recs[ri];
